@@ -97,7 +97,7 @@ _p('C01', ['R20', 'R8g', 'R8f', 'R8d', 'R8e', 'R45', 'R23lex', 'R69', 'R19', 'R7
    'strings that are not grammar-valid are outside the statement. The parser side is covered at token-kind level by C07.',
    'Exact decisions on regex languages and on the dataflow of two option values; a set of necessary conditions, not a proof of the round trip.',
    [TRUST_RE, 'pv/rx.py', T_CFG])
-_p('C02', ['R1', 'R36', 'R49', 'R28', 'R29', 'R5', 'R12', 'R64', 'R15', 'R14', 'R58', 'R53', 'R50', 'R67', 'R66', 'R4', 'R2', 'R1b', 'R73'],
+_p('C02', ['R1', 'R36', 'R49', 'R28', 'R29', 'R5', 'R12', 'R64', 'R15', 'R14', 'R58', 'R53', 'R50', 'R67', 'R66', 'R4', 'R2', 'R1b', 'R73', 'R51', 'R8h'],
    'abstract interpretation of two parallel lists; must-pass-through / exactly-once path checks on CFGs; propositional equivalence of sibling predicates',
    'R1: _interpret_node updates the triple list and the epidata list with the same operation in the same order on every path '
    '(so triples[i] and epidata[i] stay in step) and attaches POP to the last epidata entry of the nested node. R36: exactly one '
@@ -133,7 +133,7 @@ _p('C04', ['R5', 'R1b', 'R8h', 'R11', 'R49', 'R51', 'R58', 'R29', 'R64', 'R6', '
    'That the list of triples equals the documented reading for every text is not decided as a whole (depth-first order is '
    'covered by R1 under C02).',
    'Structural necessary conditions; each violation names the call or branch.', [T_CG, T_TY, TRUST_RE])
-_p('C05', ['R26', 'R27', 'R47', 'R23model', 'R14', 'R50', 'R53', 'R5', 'R67', 'R36', 'R2', 'R66', 'R4', 'R29', 'R28', 'R15', 'R73'],
+_p('C05', ['R26', 'R27', 'R47', 'R23model', 'R14', 'R50', 'R53', 'R5', 'R67', 'R36', 'R2', 'R66', 'R4', 'R29', 'R28', 'R15', 'R73', 'R64'],
    'symbolic list-shape evaluation; class-hierarchy check; typestate over sort/top; regex language equivalence; points-to mutation effects',
    'R26: _rearrange stores concat(b[:k], sorted(b[k:], key=key)) with k = 1 exactly under the test that establishes a leading '
    '"/" branch and k = 0 otherwise (a permutation that keeps the concept first, stable, ascending), recurses into every nested '
@@ -185,7 +185,7 @@ _p('C11', ['R31', 'R3', 'R38', 'R33', 'R36', 'R44', 'R62', 'R63', 'R15', 'R2', '
    'after a non-matching entry. R36/R44: the layout diagnostics reify_edges relies on.',
    'That dereify(reify(g)) equals g down to the text is not decided.',
    'Dataflow and path facts; necessary conditions.', [T_CFG, T_CG])
-_p('C12', ['R2', 'R3', 'R31', 'R14', 'R53', 'R24', 'R33', 'R63', 'R65', 'R66', 'R32', 'R15', 'R38', 'R50', 'R36', 'R44', 'R67', 'R4', 'R62', 'R73', 'R74', 'R78'],
+_p('C12', ['R2', 'R3', 'R31', 'R14', 'R53', 'R24', 'R33', 'R63', 'R65', 'R66', 'R32', 'R15', 'R38', 'R50', 'R36', 'R44', 'R67', 'R4', 'R62', 'R73', 'R74', 'R78', 'R79'],
    'typed partial-map access lint with dominating guards; pipeline order on CFG paths; selection-predicate equivalence',
    'R2: Graph.epidata is treated as a partial map everywhere (every keyed read is guarded, uses .get, or is total by '
    'construction; defect F9). R3: every transformation passes top= (defect F12). R53: configure drops superfluous POPs before '
